@@ -434,7 +434,7 @@ func ruleC07Deleg(e *Env) {
 		switch {
 		case err != nil:
 			e.S.Unk(rule, site, "Scan(other)", err.Error(), e.Pos(scan))
-		case !strings.Contains(got.String(), "*date.ErrInvalidType") || len(log) != 0:
+		case !wrapsSentinel(got, "*date.ErrInvalidType") || len(log) != 0:
 			e.S.Bad(rule, site, "Scan(other)", fmt.Sprintf("for a non-time source Scan returns %v after %v; documented: error wrapping ErrInvalidType, receiver untouched", got, log), e.Pos(scan), "")
 		default:
 			e.S.Ok(rule, site, "Scan(other)", "returns an error wrapping ErrInvalidType without touching the receiver", e.Pos(scan))
